@@ -35,9 +35,11 @@ Section Walk.
     assert (H1 : forall o, nd (exclude_metric_name (set_operation (parse_aggregation1 s w g) o) w g)).
     { intros o. apply nd_exclude_metric_name. exact (nd_parse_aggregation1 s w g H). }
     destruct op; try apply H1.
-    assert (H2 : nd (guarantee_label (include_label (set_operation (parse_aggregation1 s w g) "count_values")
-                                                    [str_of_expr p]) [str_of_expr p])).
-    { apply nd_guarantee. apply nd_include. exact (nd_parse_aggregation1 s w g H). }
+    assert (H0 : nd (set_operation (parse_aggregation1 s w g) "count_values")) by exact (nd_parse_aggregation1 s w g H).
+    assert (H2 : nd (match lit_of p with
+                     | Some d => guarantee_label (include_label (set_operation (parse_aggregation1 s w g) "count_values") [d]) [d]
+                     | None => set_operation (parse_aggregation1 s w g) "count_values" end)).
+    { destruct (lit_of p); [apply nd_guarantee; apply nd_include|]; exact H0. }
     destruct (w || negb (String.eqb (str_of_expr p) metric_name)); [apply nd_exclude_metric_name|]; exact H2.
   Qed.
 
@@ -62,7 +64,7 @@ Section Walk.
     - exact H.
     - apply nd_fold_absent. exact H.
     - destruct args; [exact H | apply nd_guarantee; exact H].
-    - apply nd_guarantee. exact H.
+    - destruct (lit_of (nth_error args 1)); [apply nd_guarantee|]; exact H.
     - apply nd_fold_vector. exact H.
     - exact H.
   Qed.
